@@ -3,9 +3,9 @@
 Decided by: spec/Engine.tla - state machine of the engine's session caches (reset / pre-parse /
 worklist loop with parse + check / lowering worklist / trace / fail), with the invariants
 NoStaleRead, CachesOfThisEpoch, OutputIndependent, OutcomeIndependent, LoweredOnlyNow model-checked by
-TLC over all histories of public calls (check / compile_function / compile) on a pool of 13 entry
+TLC over all histories of public calls (check / compile_function / compile) on a pool of 14 entry
 points (plain function, callers, failing type error and its caller, good and failing comptime
-functions, recursive capturing closure, generic function used twice, monomorphised function used at
+functions, a comptime expression that calls a Guppy function, recursive capturing closure, generic function used twice, monomorphised function used at
 two instantiations, struct with method, overloaded function, nested loops).
 Binding (spec -> code): every history printed by TLC (exhaustive to length 2/3, simulated to length 12)
 is executed in one forked interpreter session (harness/eng_engine.py); after every call the outcome
@@ -55,10 +55,11 @@ def compare(hists, obs, refs):
                 raise lib.Machinery(f"history {path}: no observation ({o})")
             nsteps += 1
             e, c = E.norm_expected(st), E.norm_observed(o)
-            for fld in e:
+            for fld in e:  # "outcome" first; one record per step (the first differing field)
                 if e[fld] != c[fld]:
                     bad.append({"kind": "state" if fld != "outcome" else "outcome", "field": fld, "path": list(path),
                                 "spec": e[fld], "code": c[fld]})
+                    break
             if st["op"] != "check" and st["outcome"] == "ok" and o["outcome"] == "ok":
                 ref = refs[("compile", st["d"])]
                 ndigest += 1
@@ -73,7 +74,7 @@ def key_of(m):
     if m["kind"] == "hugr":
         return f"hugr of {last.split(':', 1)[1]} differs from the fresh-session reference"
     if m["kind"] == "outcome":
-        return f"outcome of {last}: spec {m['spec']} code {m['code']}"
+        return f"outcome of {last.split(':', 1)[1]}: spec {m['spec']} code {m['code']}"
     extra = sorted(set(m["code"]) - set(m["spec"])) if isinstance(m["code"], list) else m["code"]
     missing = sorted(set(m["spec"]) - set(m["code"])) if isinstance(m["code"], list) else m["spec"]
     return f"engine state after {last}: {m['field']} extra={extra} missing={missing}"
@@ -107,8 +108,14 @@ def run(ctx):
     ctx.level = "model_checking"
     procs = ctx.pick(6, 14)
     # 1. model + exhaustive histories
+    import eng_tree
+
+    tree0 = eng_tree.tree_state()
     cfg = ctx.pick("Engine.cfg", "Engine_thorough.cfg")
     r, hists = histories_from(ctx, cfg, coverage=ctx.quick, timeout=ctx.pick(900, 3000), heap="6g")
+    if not ctx.quick:  # all length-2 histories over the full pool as well
+        r2, h2 = histories_from(ctx, "Engine_full2.cfg", timeout=3000)
+        hists = hists + h2
     if ctx.quick:
         for act in ("Start", "PreParse", "LoopPop", "ParseDef", "CheckDef", "LoopDone", "CompileDef", "CompileDone"):
             if r.coverage.get(act, (0, 0))[1] == 0:
@@ -116,9 +123,10 @@ def run(ctx):
         ctx.coverage["tlc_action_coverage"] = {k: list(v) for k, v in r.coverage.items()}
     nexh = len(hists)
     # 2. long random histories
-    nsim = ctx.pick(24, 400)
+    nsim = ctx.pick(12, 100)
     rs, sim = histories_from(ctx, "Engine_sim.cfg", simulate=f"num={nsim // 4 + 1}", depth=600, seed=ctx.seed + 1,
                              timeout=ctx.pick(900, 3000))
+    eng_tree.count_sim_states(ctx, rs)
     uniq = sorted({json.dumps(h, sort_keys=True) for h in sim})
     random.Random(ctx.seed).shuffle(uniq)
     sim = [json.loads(s) for s in uniq[:nsim]]
@@ -126,11 +134,11 @@ def run(ctx):
     # 3. references: each compile as the only call of a fresh interpreter process
     ops = [("compile", d) for d in eng_pool.ENTRIES]
     refs = references(ops, procs)
-    single = {(h[0]["op"], h[0]["d"]): h[0] for h in hists}
+    single = {(h[0]["op"], h[0]["d"]): h[0] for h in hists + sim}
     for (op, d), ref in refs.items():
         st = single.get((op, d))
         if st is None:
-            raise lib.Machinery(f"no history starts with {op}:{d}")
+            continue
         if E.norm_expected(st) != E.norm_observed(ref):
             ctx.violation(f"fresh process: {op}:{d} disagrees with the spec",
                           f"fresh interpreter {op}:{d}: spec {E.norm_expected(st)} code {E.norm_observed(ref)}",
@@ -141,6 +149,7 @@ def run(ctx):
     allh = hists + sim
     obs = E.run_histories(allh, ctx.workdir, procs)
     bad, nsteps, ndigest = compare(allh, obs, refs)
+    eng_tree.require_unchanged(tree0)
     ctx.log(f"replayed {len(allh)} histories = {nsteps} distinct session steps, {ndigest} HUGR comparisons, "
             f"{len(bad)} mismatching fields")
     report(ctx, bad)
@@ -162,16 +171,19 @@ def run(ctx):
                 ">= 2 different definitions",
         "samples": [[E.label(st) for st in h] for h in (allh[len(allh) // 3], allh[-1])],
         "exhaustive": True,
-        "bounds": f"all {nexh} histories of length {2 if ctx.quick else 3} over 28 calls (13 entry points x check/compile "
-                  f"+ compile() on 2) + {len(sim)} random histories of length 12 (seed {ctx.seed + 1})",
+        "bounds": (f"all {nexh} histories of length 2 over 19 calls (9 core entry points x check/compile + compile() on 1)"
+                   if ctx.quick else
+                   f"all {nexh} histories: length 3 over the 19 core calls + length 2 over all 30 calls (14 entry points "
+                   f"x check/compile + compile() on 2)") + f"; plus {len(sim)} random histories of length 12 over all 30 "
+                  f"calls (seed {ctx.seed + 1})",
         "hugr_comparisons_with_fresh_process_reference": ndigest,
         "successful_compiles_after_an_earlier_failure": after_fail,
         "recompiles_of_same_definition": repeated,
         "mismatching_fields": len(bad),
         "side_observation_tracing_state": {
             "session_steps_with_tracing_active_true_afterwards": leaks,
-            "note": "after a failed trace (ct_bad) tracing_active() stays True for the rest of the session "
-                    "(set_tracing_state has no try/finally); later outcomes and HUGRs are unaffected, so not a C11 violation"},
+            "note": "number of session steps after which tracing_active() was still True (a failed trace used to leave "
+                    "the tracing state set; its effect on later outcomes is what the ct_expr entry point detects)"},
     })
     ctx.assumptions += ["TLC", "canonicalisation (eng_canon.py): DFS renumbering of nodes, %tmpN / name.N renamed by first "
                         "occurrence, everything else compared verbatim", "fork() clones an interpreter session faithfully",
